@@ -200,6 +200,9 @@ type Built struct {
 	Sealed  [][]byte
 	T0      time.Time // clock reading before the first constructor
 	InvSeal []byte
+	// Container / WireFmt: for wire scenarios, the container bytes the loader was read from
+	Container []byte
+	WireFmt   int
 	ml      *MapLoader
 	errs    map[cid.Cid]bool
 }
@@ -375,6 +378,7 @@ func (s *Scenario) Build(r *rand.Rand) (*Built, error) {
 		if err != nil {
 			return nil, fmt.Errorf("container wire=%d: %w", s.Wire, err)
 		}
+		b.Container, b.WireFmt = data, s.Wire
 		if len(errs) > 0 {
 			b.Loader = &errLoader{inner: rd, errs: errs}
 		} else {
@@ -387,6 +391,19 @@ func (s *Scenario) Build(r *rand.Rand) (*Built, error) {
 	}
 	b.Inv = inv
 	return b, nil
+}
+
+// ReadContainer reads a wire scenario's container bytes afresh.
+func ReadContainer(data []byte, format int) (container.Reader, error) {
+	switch format {
+	case 1:
+		return container.FromCbor(data)
+	case 2:
+		return container.FromCar(data)
+	case 3:
+		return container.FromCborBase64(data)
+	}
+	return container.FromCarBase64Reader(strings.NewReader(string(data)))
 }
 
 // MakeInvocation builds (and for wire scenarios seals and decodes) the invocation of a
